@@ -181,7 +181,7 @@ func c02One(env *Env, m *wvlib.Model, c *C02Case) {
 	}
 	// ---- model
 	_, _, msgs, derr := decodePatch(patch)
-	if derr == nil && !(strings.HasPrefix(c.Clash, "temp-name") && os.Getenv("WV_C02_MODEL_TEMPNAMES") == "") {
+	if derr == nil {
 		mf, cl := writeMsgFile(env.Scratch, msgs)
 		ol, nl := base+"/old.lst", base+"/new.lst"
 		writeBuildListing(ol, res.Old, old)
